@@ -25,7 +25,7 @@ RULE = (
     "pre-emption bound, clock jumps); every schedule is executed on the real provider object; states = scheduler states"
 )
 BOUNDS = {
-    "quick": {"atom_set_size": 2, "preemptions": 2, "threads": [2, 3], "clock_jumps": 1, "max_exec_per_item": 4000},
+    "quick": {"atom_set_size": 2, "preemptions": 2, "threads": [2, 3], "clock_jumps": 1, "max_exec_per_item": 12000},
     "thorough": {"atom_set_size": 2, "preemptions": 3, "threads": [2, 3], "clock_jumps": 1, "max_exec_per_item": 200000},
 }
 BUDGET_S = {"quick": 140, "thorough": 3300}
